@@ -157,7 +157,7 @@ func (c07) Rule() string {
 		"cases: every NEAR in 0..min(255,(2^P-1)/2) for every P in 2..16 (quick: every NEAR at P in {2,3,4,8,12,16}, sampled elsewhere) x components {1,3} x content classes (edges within NEAR of 0/MAXVAL, ramps with step 2*NEAR+1 and 2*NEAR, noise, two-level, runs with outliers). " +
 		"non-trivial: encoder accepted and every sample was compared; distinct = distinct descriptor"
 }
-func (c07) Assumptions() []string { return []string{"self round trip only"} }
+func (c07) Assumptions() []string                   { return []string{"self round trip only"} }
 func (c07) Decode(raw json.RawMessage) (any, error) { return decodeInto[imgCase](raw) }
 
 func maxNear(p int) int {
